@@ -21,16 +21,16 @@ SPEC = {
         "known-finding classes A, B (higher OR rungs), C (prune_alter), D (prune_regex_source), R (range campaigns), H (hint campaign) are excluded by construction and counted; replays/C11/*.json hold one minimal case each (C11_CHECK_KNOWN=ABCDRH checks them too)",
     ],
     "campaigns": [
-        {"name": "route_hash", "run": "^TestRouteHash$", "quick": B(4000, 1), "thorough": B(250000, 2, 3000)},
-        {"name": "route_hash_alter", "run": "^TestRouteHashAlter$", "quick": B(2000, 1), "thorough": B(250000, 1, 3000)},
-        {"name": "route_range", "run": "^TestRouteRange$", "quick": B(3000, 2), "thorough": B(250000, 2, 3000)},
-        {"name": "prune_and", "run": "^TestPruneAnd$", "quick": B(4000, 2), "thorough": B(250000, 2, 3000)},
-        {"name": "prune_or_keys", "run": "^TestPruneOrKeys$", "quick": B(4000, 2), "thorough": B(250000, 2, 3000)},
-        {"name": "prune_full", "run": "^TestPruneFull$", "quick": B(6000, 2), "thorough": B(250000, 2, 3000)},
-        {"name": "prune_alter", "run": "^TestPruneAlter$", "quick": B(3000, 2), "thorough": B(250000, 1, 3000)},
-        {"name": "prune_regex_source", "run": "^TestPruneRegexSource$", "quick": B(3000, 1), "thorough": B(250000, 1, 3000)},
-        {"name": "prune_range", "run": "^TestPruneRange$", "quick": B(3000, 2), "thorough": B(250000, 2, 3000)},
-        {"name": "prune_hint_full_series", "run": "^TestPruneHintFullSeries$", "quick": B(3000, 1), "thorough": B(250000, 1, 3000)},
+        {"name": "route_hash", "run": "^TestRouteHash$", "quick": B(4000, 1), "thorough": B(400000, 2, 7200)},
+        {"name": "route_hash_alter", "run": "^TestRouteHashAlter$", "quick": B(2000, 1), "thorough": B(400000, 1, 7200)},
+        {"name": "route_range", "run": "^TestRouteRange$", "quick": B(3000, 2), "thorough": B(400000, 2, 7200)},
+        {"name": "prune_and", "run": "^TestPruneAnd$", "quick": B(4000, 2), "thorough": B(400000, 2, 7200)},
+        {"name": "prune_or_keys", "run": "^TestPruneOrKeys$", "quick": B(4000, 2), "thorough": B(400000, 2, 7200)},
+        {"name": "prune_full", "run": "^TestPruneFull$", "quick": B(6000, 2), "thorough": B(400000, 2, 7200)},
+        {"name": "prune_alter", "run": "^TestPruneAlter$", "quick": B(3000, 2), "thorough": B(400000, 1, 7200)},
+        {"name": "prune_regex_source", "run": "^TestPruneRegexSource$", "quick": B(3000, 1), "thorough": B(400000, 1, 7200)},
+        {"name": "prune_range", "run": "^TestPruneRange$", "quick": B(3000, 2), "thorough": B(400000, 2, 7200)},
+        {"name": "prune_hint_full_series", "run": "^TestPruneHintFullSeries$", "quick": B(3000, 1), "thorough": B(400000, 1, 7200)},
     ],
 }
 
